@@ -283,6 +283,21 @@ pub struct RootB<'gc> {
     pub body: RootBody<'gc>,
 }
 
+/// A root that holds no pointers at all (`NEEDS_TRACE = false`): everything such an arena
+/// allocates is garbage as soon as the callback returns, yet every call contract still applies.
+#[derive(Collect)]
+#[collect(require_static)]
+pub struct RootS {
+    pub generation: u32,
+}
+pub type ArenaS = gc_arena::Arena<Rootable![RootS]>;
+
+/// What callbacks of an arena with a pointer-free root are shown instead of a root body: empty and
+/// never written to.
+pub fn empty_root_body<'gc>(site: u32) -> RootBody<'gc> {
+    RootBody { slots: vec![None; ROOT_STRONG], fp: FaultPoint(site), weak: vec![None; ROOT_WEAK], set: None, zst: None }
+}
+
 pub type ArenaA = gc_arena::Arena<Rootable![RootA<'_>]>;
 pub type ArenaB = gc_arena::Arena<Rootable![RootB<'_>]>;
 
